@@ -701,12 +701,26 @@ class SessionSim(Sim):
                                       'expected': sorted({r['target'] for r in want2})},
                                      tags=['no-arguments'] if not args else [])
             self._check_relation_map(s.relation_map(), rs, key, ctx, 'Sense')
-            n = 0
+            got_c = []
             for t in s.closure(*types):
-                n += 1
-                if n > 300:
+                got_c.append(observe.ekey(t))
+                if len(got_c) > 300:
                     raise self.v('termination', 'Sense.closure() does not terminate',
                                  {'cfg': ctx['cfg'], 'sense': key})
+            if not self._colliding_sense_ids(S if not default else m.installed):
+                seen_, todo_ = set(), [key]
+                while todo_:
+                    x_ = todo_.pop()
+                    for r in subset(rels_of('senses', x_, 'senses'), types) \
+                            if x_ in exp['senses'] else []:
+                        if r['target'] not in seen_:
+                            seen_.add(r['target'])
+                            todo_.append(r['target'])
+                if set(got_c) != seen_ or len(set(got_c)) != len(got_c):
+                    raise self.v('closure', 'Sense.closure(%s) is not exactly the set of '
+                                 'reachable senses' % ', '.join(types),
+                                 {'cfg': ctx['cfg'], 'sense': key, 'observed': sorted(got_c),
+                                  'expected': sorted(seen_)})
             for path in s.relation_paths(*types):
                 pk = [observe.ekey(t) for t in path]
                 if len(set(pk)) != len(pk) or key in pk:
@@ -741,6 +755,17 @@ class SessionSim(Sim):
                     seen.add(r['target'])
                     todo.append(r['target'])
         return seen
+
+    def _colliding_sense_ids(self, specs):
+        seen, dup = set(), set()
+        for sp in specs:
+            if sp not in self.m.installed:
+                continue
+            for sn, _e in self.m.idx[sp].local_senses():
+                if sn['id'] in seen:
+                    dup.add(sn['id'])
+                seen.add(sn['id'])
+        return dup
 
     def _colliding_ids(self, specs, kind):
         seen, dup = set(), set()
